@@ -229,7 +229,16 @@ def _rest(m, run):
     _sd.fn2(m, run)
     c17.ag5(m, run)
     wn1(m, run)
-    off1(m, run)
+    # the aggregate mesh of a container is decided on a real container of recorder surfaces through four rebuilds (CT2); the rule that
+    # looks for the forced re-tessellation in front of the cumulative id update corroborates
+    n_ct = len(run.obs)
+    try:
+        _sd.ct2(m, run)
+    except AnalysisError as ex:
+        run.error(str(ex))
+    ct_ok = len(run.obs) > n_ct and all(o.ok for o in run.obs[n_ct:])
+    with run.corroborating(ct_ok, 'CT2', rules=('OFF1.offsets-on-fresh-numbering',)):
+        off1(m, run)
     tk1(m, run)
     tr1(m, run)
     c12_mod = __import__('sa.checks.c12', fromlist=['iv7'])
